@@ -3,11 +3,13 @@ import string
 
 # Global DNA nt groups
 group = {"A": "A", "T": "T", "C": "C", "G": "G",
+         "R": "AG", "Y": "CT",
          "W": "AT", "S": "CG", "M": "AC", "K": "GT", 
          "B": "CGT", "V": "ACG", "D": "AGT", "H": "ACT",
          "N": "ACGT"} # SpuriousC group codes
 rev_group = dict([(v, k) for (k, v) in list(group.items())])  # A reverse lookup for group.
 complement = {"A": "T", "T": "A", "C": "G", "G": "C",
+              "R": "Y", "Y": "R",
               "W": "W", "S": "S", "M": "K", "K": "M",
               "B": "V", "V": "B", "D": "H", "H": "D",
               "N": "N"} # Should satisfy set(group[complement[X]]) == set(seq_comp(group[X]))
